@@ -253,7 +253,8 @@ PLANS["C12"] = {
              "status, error code (documented acceptable set), descriptor and buffers are compared; every 16th "
              "entry is followed by the valid job again. distinct = distinct (variant, suite, entry, API, errno). Third API: the synchronous IMB_SUBMIT_CIPHER_BURST / HASH_BURST / AEAD_BURST calls (cipher, direction, key size, hash passed as parameters taken from the perturbed descriptor; entries touching fields those calls never read are skipped). Valid variants (unused key pointer NULL) must be accepted. Direct-API sweep: every function pointer of IMB_MGR and the exported helpers x every NULL pointer argument / NULL array element x documented limits, also under ASan+UBSan."),
     "floors": {"quick": {"catalogue_entries_run": 150000, "valid_jobs_confirmed": 8000, "direct_calls_null": 100000,
-                         "direct_calls_limit": 20000, "direct_functions": 122}},
+                         "direct_calls_limit": 20000, "direct_functions": 122,
+                         "direct_error_codes_judged_by_role": 100000}},
     "assumptions": ["acceptable error codes per entry come from the names in the IMB_ERR enum; where two names "
                     "equally describe the constraint both are accepted"],
 }
@@ -265,6 +266,8 @@ def _c08(tier, seed):
         # valgrind's synthetic CPU has no AVX512/SHA-NI/GFNI/VAES: a real "older CPU"
         {"engine": "nver", "args": ["--valgrind"], "cases": 48 if tier == "quick" else 1600, "shards": N,
          "prefix": ["valgrind", "-q", "--error-exitcode=9"], "timeout": 3000},
+        # direct-API calls: valid outputs N-versioned between variants, error codes of perturbed calls must agree
+        {"engine": "abi", "args": [], "cases": 8 if tier == "quick" else 120, "shards": N, "timeout": 3000},
     ]
 
 
@@ -280,8 +283,11 @@ PLANS["C08"] = {
              "(init must fail with IMB_ERR_MISSING_CPUFLAGS_INIT_MGR for unsupported architectures, auto must pick "
              "the best supported one, the selected variant must produce reference results); the same stream runs "
              "under valgrind, whose CPU lacks AVX512/SHA-NI/GFNI/VAES. distinct = distinct (cipher, hash, "
-             "violation or valid, status, errno) tuples + configuration pairs + CPU-model outcomes. Every fourth unit is a batch of 2..24 jobs of one suite submitted back to back (lanes fill, jobs complete inside submit) on all 16 configurations with per-job fingerprints compared."),
-    "floors": {"quick": {"items": 6000, "invalid_items": 1500, "cross_config_decrypts": 500, "cpu_models": 5}},
+             "violation or valid, status, errno) tuples + configuration pairs + CPU-model outcomes. Every fourth unit is a batch of 2..24 jobs of one suite submitted back to back (lanes fill, jobs complete inside submit) on all 16 configurations with per-job fingerprints compared. Direct-API sweep (engine abi): outputs without a reference are "
+             "N-versioned between the seven variants and the error code of every NULL / over-limit perturbed call must be "
+             "the same on all variants."),
+    "floors": {"quick": {"items": 6000, "invalid_items": 1500, "cross_config_decrypts": 500, "cpu_models": 5,
+                         "direct_error_codes_compared_between_variants": 20000}},
     "assumptions": ["7 distinct variants are reachable on this host (recorded in variants_exercised)"],
 }
 PLANS["C09"] = {
